@@ -416,7 +416,8 @@ def codegen_tensor_product_right(
     if shared_weights:
         output_shape = x2s.shape[:-1]
     else:
-        output_shape = torch.broadcast_tensors(x2s[..., 0], weights[..., 0])[0].shape
+        # `:1` rather than `0`, so that an empty last dimension (no weights, or an empty irreps_in2) does not error out
+        output_shape = torch.broadcast_tensors(x2s[..., :1], weights[..., :1])[0].shape[:-1]
 
     # = Short-circut for zero dimensional =
     # We produce no code for empty instructions
